@@ -4,7 +4,7 @@ recognised statement forms is reported and the default program is emitted instea
 import ast
 
 # source functions whose control flow is regenerated on every run (coverage audit contract)
-TRANSLATED = ['pyramid/view.py:_find_views']
+TRANSLATED = ['pyramid/view.py:_find_views', 'pyramid/registry.py:Registry.__init__']
 
 KEY_BASE = ['request_iface', 'context_iface', 'view_name']
 KEY_EXTRA = ['view_classifier', 'view_types']
@@ -21,6 +21,7 @@ VIEW_TYPE_IDS = {'IView': 0, 'ISecuredView': 1, 'IMultiView': 2}
 DEFAULT_LOOKUP = ['ReadPtr', 'Get', ['IfMiss', ['InitViews', 'QueryAll', ['IfNonEmpty', ['Lock', 'Write Local', 'Unlock']]]],
                   'Return']
 DEFAULT_REGISTER = ['RegisterAdapter', 'Clear Swap']
+DEFAULT_INIT = ['INewLock', 'IClear clear_mode_registry', 'IResetAdapters']
 
 
 class Unknown(Exception):
@@ -444,3 +445,351 @@ def multiview_stateless(cls):
                 if isinstance(par, (ast.AugAssign, ast.Delete)):
                     raise Unknown('MultiView.%s modifies self.%s (line %d)' % (name, a.attr, a.lineno))
     return True
+
+
+# ---------------------------------------------------------------- Registry.__init__ -> init program
+def _mentions_self(node):
+    return any(isinstance(n, ast.Name) and n.id == 'self' for n in ast.walk(node))
+
+
+def translate_init(fn, mode):
+    """Registry.__init__ -> list of init instructions (coq/Lib/C15Init.v).  Recognised, at the top level of the body
+    and unconditionally: the lock creation, the cache clear, the call of Components.__init__ (drops every
+    registration), dict.__init__(self); statements that do not mention self at all (they only bind locals) are
+    skipped.  Anything else that touches self -- in particular a lock / clear under a condition -- is not expressible."""
+    sig = u(fn.args)
+    if not sig.startswith('self') or fn.decorator_list:
+        raise Unknown('signature of Registry.__init__: (%s)' % sig)
+    prog = []
+    for st in _strip_doc(fn.body):
+        t = u(st)
+        if not _mentions_self(st):
+            for n in ast.walk(st):
+                if isinstance(n, (ast.Return, ast.Raise, ast.Global, ast.Nonlocal)):
+                    raise Unknown('Registry.__init__: %s' % t.split('\n')[0][:80])
+            continue
+        if t == 'self._lock = threading.Lock()':
+            prog.append('INewLock')
+        elif t == 'self._clear_view_lookup_cache()':
+            prog.append('IClear %s' % mode)
+        elif isinstance(st, ast.Expr) and isinstance(st.value, ast.Call) and \
+                u(st.value.func) in ('Components.__init__', 'super().__init__', 'super(Registry, self).__init__'):
+            prog.append('IResetAdapters')
+        elif t == 'dict.__init__(self)':
+            pass
+        else:
+            raise Unknown('Registry.__init__: statement not recognised: %s' % t.split('\n')[0][:100])
+    for ins in ('INewLock', 'IClear %s' % mode, 'IResetAdapters'):
+        if prog.count(ins) > 1:
+            raise Unknown('Registry.__init__: %s more than once' % ins)
+    return prog
+
+
+# ---------------------------------------------------------------- Router.handle_request -> request type of the lookup
+IFACE_SITES = {
+    'pyramid/router.py': {'Router.handle_request'},
+    'pyramid/request.py': {'Request'},
+    'pyramid/testing.py': {'DummyRequest'},
+}
+ROUTE_IFACE = 'registry.queryUtility(IRouteRequest, name=route.name, default=IRequest)'
+
+
+def _iface_store(st):
+    """is st `request.request_iface = <v>` / `attrs['request_iface'] = <v>`?  -> unparsed value | None"""
+    if isinstance(st, ast.Assign) and len(st.targets) == 1:
+        tg = st.targets[0]
+        if isinstance(tg, ast.Attribute) and tg.attr == 'request_iface' and u(tg.value) == 'request':
+            return u(st.value)
+        if isinstance(tg, ast.Subscript) and u(tg.value) == 'attrs' and isinstance(tg.slice, ast.Constant) \
+                and tg.slice.value == 'request_iface':
+            return u(st.value)
+    return None
+
+
+def _touches_iface(node):
+    for n in ast.walk(node):
+        if isinstance(n, ast.Attribute) and n.attr == 'request_iface' and not isinstance(n.ctx, ast.Load):
+            return True
+        if isinstance(n, ast.Constant) and n.value == 'request_iface':
+            return True
+    return False
+
+
+def router_iface(fn):
+    """Router.handle_request -> (resets, sets_route): is request.request_iface unconditionally reset to IRequest before
+    the routes mapper is consulted, and is the matched route's request interface stored when a route matched?  Every
+    other store to the attribute, a lookup call with other arguments, or a different value is reported."""
+    if u(fn.args) != 'self, request' or fn.decorator_list:
+        raise Unknown('signature of Router.handle_request: (%s)' % u(fn.args))
+    body = _strip_doc(fn.body)
+    resets = sets_route = False
+    seen_mapper = False
+    accounted = set()
+    for st in body:
+        v = _iface_store(st)
+        if v is not None:
+            if v != 'IRequest' or seen_mapper:
+                raise Unknown('handle_request stores %s into request_iface %s' % (v, 'after routing' if seen_mapper else ''))
+            resets = True
+            accounted.add(id(st))
+            continue
+        if isinstance(st, ast.If) and u(st.test) == 'routes_mapper is not None' and not st.orelse:
+            seen_mapper = True
+            for inner in st.body:
+                if isinstance(inner, ast.If) and u(inner.test) in ('route is None', 'route is not None'):
+                    branch = inner.orelse if u(inner.test) == 'route is None' else inner.body
+                    for x in branch:
+                        v = _iface_store(x)
+                        if v is not None:
+                            if v != ROUTE_IFACE or sets_route:
+                                raise Unknown('handle_request stores %s into request_iface for a matched route' % v)
+                            sets_route = True
+                            accounted.add(id(x))
+        elif any(isinstance(c, ast.Call) and u(c.func) == 'routes_mapper' for c in ast.walk(st)):
+            seen_mapper = True
+    for n in ast.walk(fn):
+        if isinstance(n, ast.stmt) and not isinstance(n, (ast.If, ast.For, ast.While, ast.With, ast.Try, ast.FunctionDef)) \
+                and id(n) not in accounted and _touches_iface(n):
+            raise Unknown('handle_request touches request_iface in an unexpected place (line %d)' % n.lineno)
+    calls = [c for c in ast.walk(fn) if isinstance(c, ast.Call) and u(c.func) == '_call_view']
+    if len(calls) != 1 or u(calls[0]) != '_call_view(registry, request, context, context_iface, view_name)':
+        raise Unknown('handle_request calls _call_view %s' % [u(c) for c in calls])
+    if not any(u(st) == 'context_iface = providedBy(context)' for st in body):
+        raise Unknown('handle_request does not compute context_iface = providedBy(context)')
+    if not any(u(st) == "registry = attrs['registry']" for st in body):
+        raise Unknown('handle_request does not take the registry from the request')
+    return resets, sets_route
+
+
+def request_iface_sites(src_root):
+    """every STORE to an attribute / item / class attribute called request_iface in src/pyramid (tests and p* scripts
+    excluded) sits in Router.handle_request, or is the class default of Request / DummyRequest (= IRequest)"""
+    import os
+    bad = []
+    for d, _, fs in os.walk(os.path.join(src_root, 'pyramid')):
+        if os.sep + 'tests' in d or d.endswith('scripts') or 'scaffolds' in d:
+            continue
+        for fname in fs:
+            if not fname.endswith('.py'):
+                continue
+            path = os.path.join(d, fname)
+            rel = os.path.relpath(path, src_root)
+            text = open(path).read()
+            if 'request_iface' not in text:
+                continue
+            allowed = IFACE_SITES.get(rel, set())
+            for q, n in _qual_walk(ast.parse(text)):
+                hit = False
+                if isinstance(n, ast.Attribute) and n.attr == 'request_iface' and not isinstance(n.ctx, ast.Load):
+                    hit = True
+                elif isinstance(n, ast.Subscript) and not isinstance(n.ctx, ast.Load) and \
+                        isinstance(n.slice, ast.Constant) and n.slice.value == 'request_iface':
+                    hit = True
+                elif isinstance(n, ast.Call) and u(n.func) in ('setattr', 'delattr') and len(n.args) > 1 and \
+                        isinstance(n.args[1], ast.Constant) and n.args[1].value == 'request_iface':
+                    hit = True
+                elif isinstance(n, ast.Assign) and any(isinstance(t, ast.Name) and t.id == 'request_iface'
+                                                       for t in n.targets) and q in ('Request', 'DummyRequest'):
+                    if u(n.value) != 'IRequest':
+                        bad.append('%s:%s class default request_iface = %s' % (rel, q, u(n.value)))
+                    continue
+                if hit and q not in allowed:
+                    bad.append('%s:%s stores request_iface (line %d)' % (rel, q or '<module>', n.lineno))
+    mreq = ast.parse(open(os.path.join(src_root, 'pyramid', 'request.py')).read())
+    ok = False
+    for n in mreq.body:
+        if isinstance(n, ast.ClassDef) and n.name == 'Request':
+            ok = any(isinstance(st, ast.Assign) and u(st) == 'request_iface = IRequest' for st in n.body)
+    if not ok:
+        bad.append('pyramid/request.py: class Request has no class attribute request_iface = IRequest')
+    if bad:
+        raise Unknown('; '.join(bad[:4]))
+    return True
+
+
+# ---------------------------------------------------------------- _call_view -> gen_call_view
+TRANSLATED.append('pyramid/view.py:_call_view')
+CV_SIG = ('registry, request, context, context_iface, view_name, view_types=None, view_classifier=None, secure=True, '
+          'request_iface=None')
+CV_FIND = ('_find_views(registry, request_iface, context_iface, view_name, view_types=view_types, '
+           'view_classifier=view_classifier)')
+CV_IFACE = "if request_iface is None:\n    request_iface = getattr(request, 'request_iface', IRequest)"
+# what "calling a candidate" means when secure=False (part of the opaque candidate call; V = the loop variable)
+CV_PERMISSIVE = (
+    "if not secure:\n"
+    "    permissive = getattr(V, '__call_permissive__', None)\n"
+    "    if permissive is not None:\n"
+    "        predicated = getattr(V, '__predicated__', None)\n"
+    "        if predicated is not None and (not predicated(context, request)):\n"
+    "            raise PredicateMismatch(view_name)\n"
+    "        V = permissive")
+
+
+class _Rename(ast.NodeTransformer):
+    def __init__(self, mp):
+        self.mp = mp
+
+    def visit_Name(self, node):
+        return ast.copy_location(ast.Name(id=self.mp.get(node.id, node.id), ctx=node.ctx), node)
+
+
+def translate_call_view(fn):
+    """pyramid.view._call_view -> Gallina text of
+         gen_call_view (call : N -> cand_result) (views : list N) : cv_outcome
+    The locals initialised with None become loop-carried variables: FLAGS (bound from the caught PredicateMismatch;
+    bool) and RESULTS (bound from the candidate call; option N).  Statement forms: the for loop over the list returned
+    by _find_views whose body is one try/except PredicateMismatch; in the try body the optional secure=False block
+    (fixed text, part of what calling a candidate means), `r = V(context, request)`, then `return r` / `break` /
+    nothing; in the handler `flag = <exc>` / pass / continue; after the loop `if flag is not None: raise flag`,
+    `return r`, `return None`.  Anything else is reported."""
+    if u(fn.args) != CV_SIG or fn.decorator_list:
+        raise Unknown('signature of _call_view: (%s)' % u(fn.args))
+    body = _strip_doc(fn.body)
+    flags, results = [], []
+    views_var = None
+    i = 0
+    seen_iface = False
+    while i < len(body):
+        st = body[i]
+        t = u(st)
+        if t == CV_IFACE and views_var is None:
+            seen_iface = True
+        elif isinstance(st, ast.Assign) and len(st.targets) == 1 and isinstance(st.targets[0], ast.Name) \
+                and u(st.value) == CV_FIND and views_var is None:
+            if not seen_iface:
+                raise Unknown('_call_view looks views up before the request type is defaulted from the request')
+            views_var = st.targets[0].id
+        elif isinstance(st, ast.Assign) and len(st.targets) == 1 and isinstance(st.targets[0], ast.Name) \
+                and u(st.value) == 'None' and views_var is not None:
+            pass        # typed below, by use
+        elif isinstance(st, ast.For):
+            break
+        else:
+            raise Unknown('_call_view: statement not recognised: %s' % t.split('\n')[0][:100])
+        i += 1
+    if views_var is None or i >= len(body):
+        raise Unknown('_call_view: no loop over the result of _find_views')
+    inits = [s.targets[0].id for s in body[:i] if isinstance(s, ast.Assign) and u(s.value) == 'None']
+    loop = body[i]
+    after = body[i + 1:]
+    if not (isinstance(loop.target, ast.Name) and isinstance(loop.iter, ast.Name) and loop.iter.id == views_var
+            and not loop.orelse):
+        raise Unknown('_call_view: loop header %s' % u(loop).split('\n')[0])
+    V = loop.target.id
+    if len(loop.body) != 1 or not isinstance(loop.body[0], ast.Try):
+        raise Unknown('_call_view: the loop body is not one try statement')
+    tr = loop.body[0]
+    if tr.orelse or tr.finalbody or len(tr.handlers) != 1 or tr.handlers[0].type is None \
+            or u(tr.handlers[0].type) != 'PredicateMismatch':
+        raise Unknown('_call_view: try/except shape')
+    exc = tr.handlers[0].name
+    # ---- classify the None-initialised locals
+    tb = list(tr.body)
+    if tb and isinstance(tb[0], ast.If) and u(tb[0].test) == 'not secure':
+        want = ast.dump(ast.parse(CV_PERMISSIVE))
+        got = ast.dump(ast.parse(u(_Rename({V: 'V'}).visit(ast.parse(u(tb[0]))))))
+        if got != want:
+            raise Unknown('_call_view: the secure=False block changed')
+        tb = tb[1:]
+    else:
+        raise Unknown('_call_view: secure=False block not found')
+    if not tb or not (isinstance(tb[0], ast.Assign) and len(tb[0].targets) == 1 and isinstance(tb[0].targets[0], ast.Name)
+                      and u(tb[0].value) == '%s(context, request)' % V):
+        raise Unknown('_call_view: the candidate is not called as V(context, request)')
+    res = tb[0].targets[0].id
+    results.append(res)
+    for st in tr.handlers[0].body:
+        if isinstance(st, ast.Assign) and len(st.targets) == 1 and isinstance(st.targets[0], ast.Name) \
+                and isinstance(st.value, ast.Name) and st.value.id == exc:
+            if st.targets[0].id not in flags:
+                flags.append(st.targets[0].id)
+    for n in inits:
+        if n not in flags and n not in results:
+            raise Unknown('_call_view: local %s is initialised but its use is not recognised' % n)
+    for n in flags + results:
+        if n not in inits:
+            raise Unknown('_call_view: local %s is used in the loop but not initialised with None' % n)
+    if set(flags) & set(results):
+        raise Unknown('_call_view: a local is both flag and result')
+    flags.sort(key=inits.index)
+    results.sort(key=inits.index)
+    fv = {n: 'f%d' % k for k, n in enumerate(flags)}
+    rv = {n: 'r%d' % k for k, n in enumerate(results)}
+    state = [fv[n] for n in flags] + [rv[n] for n in results]
+
+    def ret_of(node):
+        if node is None or u(node) == 'None':
+            return 'CVNone'
+        if isinstance(node, ast.Name) and node.id in rv:
+            return '(cv_ret %s)' % rv[node.id]
+        raise Unknown('_call_view returns %s' % u(node))
+
+    def after_code(stmts, env):
+        """code after the loop (also the target of break) with the current values of the state variables"""
+        if not stmts:
+            return 'CVNone'
+        st = stmts[0]
+        if isinstance(st, ast.Return):
+            return _subst(ret_of(st.value), env)
+        if isinstance(st, ast.If) and not st.orelse and len(st.body) == 1 and isinstance(st.body[0], ast.Raise) \
+                and isinstance(st.test, ast.Compare) and len(st.test.ops) == 1 and isinstance(st.test.ops[0], ast.IsNot) \
+                and isinstance(st.test.left, ast.Name) and st.test.left.id in fv and u(st.test.comparators[0]) == 'None' \
+                and isinstance(st.body[0].exc, ast.Name) and st.body[0].exc.id == st.test.left.id:
+            return '(if %s then CVRaiseMismatch else %s)' % (_subst(fv[st.test.left.id], env), after_code(stmts[1:], env))
+        raise Unknown('_call_view: statement after the loop not recognised: %s' % u(st).split('\n')[0][:100])
+
+    def _subst(txt, env):
+        for k, v in env.items():
+            txt = txt.replace(k, v)
+        return txt
+
+    # ---- the answered branch: response bound, then the rest of the try body
+    env_ans = {rv[res]: '(Some a)'}
+    rest = tb[1:]
+    if not rest:
+        answered = 'loop r %s' % ' '.join(_subst(x, env_ans) for x in state)
+    elif len(rest) == 1 and isinstance(rest[0], ast.Return):
+        answered = _subst(ret_of(rest[0].value), env_ans)
+    elif len(rest) == 1 and isinstance(rest[0], ast.Break):
+        answered = after_code(after, env_ans)
+    else:
+        raise Unknown('_call_view: after the candidate call: %s' % u(rest[0]).split('\n')[0][:100])
+    # ---- the mismatch branch: the handler
+    env_mis = {}
+    for st in tr.handlers[0].body:
+        if isinstance(st, ast.Assign) and len(st.targets) == 1 and isinstance(st.targets[0], ast.Name) \
+                and st.targets[0].id in fv and isinstance(st.value, ast.Name) and st.value.id == exc:
+            env_mis[fv[st.targets[0].id]] = 'true'
+        elif isinstance(st, (ast.Pass, ast.Continue)):
+            pass
+        else:
+            raise Unknown('_call_view: handler statement not recognised: %s' % u(st).split('\n')[0][:100])
+    mismatch = 'loop r %s' % ' '.join(_subst(x, env_mis) for x in state)
+    binders = ' '.join(['(%s : bool)' % fv[n] for n in flags] + ['(%s : option N)' % rv[n] for n in results])
+    inits_txt = ' '.join(['false'] * len(flags) + ['None'] * len(results))
+    coq = ('Definition cv_ret (o : option N) : cv_outcome := match o with Some a => CVResponse a | None => CVNone end.\n'
+           'Definition gen_call_view (call : N -> cand_result) (views : list N) : cv_outcome :=\n'
+           '  (fix loop (l : list N) %s {struct l} : cv_outcome :=\n'
+           '     match l with\n'
+           '     | [] => %s\n'
+           '     | v :: r =>\n'
+           '         match call v with\n'
+           '         | CAnswer a => %s\n'
+           '         | CMismatch => %s\n'
+           '         end\n'
+           '     end) views %s.\n' % (binders, after_code(after, {}), answered, mismatch, inits_txt))
+    return coq
+
+
+CV_FALLBACK = (
+    'Definition cv_ret (o : option N) : cv_outcome := match o with Some a => CVResponse a | None => CVNone end.\n'
+    'Definition gen_call_view (call : N -> cand_result) (views : list N) : cv_outcome :=\n'
+    '  (fix loop (l : list N) (f0 : bool) (r0 : option N) {struct l} : cv_outcome :=\n'
+    '     match l with\n'
+    '     | [] => (if f0 then CVRaiseMismatch else (cv_ret r0))\n'
+    '     | v :: r =>\n'
+    '         match call v with\n'
+    '         | CAnswer a => (cv_ret (Some a))\n'
+    '         | CMismatch => loop r true r0\n'
+    '         end\n'
+    '     end) views false None.\n')
